@@ -2,6 +2,7 @@ package main
 
 import (
 	"fmt"
+	"strings"
 	"go/token"
 	"go/types"
 
@@ -39,6 +40,42 @@ func checkOffsetLoopDecoders(c *Check, p *Program, rule string) {
 		checkOffsetLoop(c, p, rule, f, lps[0])
 	}
 	c.Floor(rule, "offset-loop decoders", n, 2)
+	// the blocks these loops walk start with (length, type): the encoders of the block types write their size
+	// first and their type second
+	nEnc := 0
+	zero := linConst(0)
+	for _, tn := range []string{"DeviceInformationBlock", "SupportedServicesDIB"} {
+		pk := p.Method("knx/knxnet", tn, "Pack")
+		if pk == nil {
+			c.Fail(rule, "knxnet."+tn+".Pack", "", "not found")
+			continue
+		}
+		for _, pp := range runEncoder(p, pk) {
+			b0, ok0 := byteAt(pp, zero, 0)
+			b1, ok1 := byteAt(pp, zero, 1)
+			isSize := ok0 && len(b0) == 8
+			if isSize {
+				if _, isK := b0.Const(); !isK {
+					for i, b := range b0 {
+						if b.K != bsrc || !strings.Contains(b.Src, "Size(") || b.Idx != i {
+							isSize = false
+						}
+					}
+				}
+			}
+			isType := ok1 && len(b1) == 8
+			if isType {
+				for i, b := range b1 {
+					if b.K != bsrc || b.Src != "r.Type" || b.Idx != i {
+						isType = false
+					}
+				}
+			}
+			nEnc++
+			c.Decide(isSize && isType, rule, "knxnet."+tn+" block starts with (size, type) ["+pathLabel(pp)+"]", p.Pos(pk.Pos()), "octet 0 = Size(), octet 1 = Type", "the encoder of this block type does not write its size into octet 0 and its type into octet 1: the block loop reads length and type from those octets")
+		}
+	}
+	c.Floor(rule, "block encoders compared with the loop header", nEnc, 2)
 }
 
 func checkOffsetLoop(c *Check, p *Program, rule string, f *ssa.Function, lp *loopInfo) {
@@ -157,6 +194,63 @@ func checkOffsetLoop(c *Check, p *Program, rule string, f *ssa.Function, lp *loo
 		}
 	}
 	c.Decide(okT2 && nLatch >= 1, rule, name+" every round advances the offset by the element's length", p.InstrPos(off), fmt.Sprintf("%d way(s) round the loop, each offset + decoded length", nLatch), "a way round the loop does not advance the offset by the decoded length of the element: "+whyT2)
+	// the header: the first octet read is the announced length (the value the loop advances or ends by), the
+	// second the type
+	{
+		var lenCell *ssa.Alloc
+		if u, ok := stripAllConv(end).(*ssa.UnOp); ok && u.Op == token.MUL {
+			lenCell, _ = u.X.(*ssa.Alloc)
+		}
+		if lenCell == nil {
+			var find func(v ssa.Value, d int)
+			find = func(v ssa.Value, d int) {
+				if d > 6 || lenCell != nil {
+					return
+				}
+				switch x := v.(type) {
+				case *ssa.Phi:
+					if x != off {
+						for _, e := range x.Edges {
+							find(e, d+1)
+						}
+					}
+				case *ssa.BinOp:
+					find(x.X, d+1)
+					find(x.Y, d+1)
+				case *ssa.Convert:
+					find(x.X, d+1)
+				case *ssa.UnOp:
+					if c, ok := x.X.(*ssa.Alloc); ok && x.Op == token.MUL {
+						lenCell = c
+					}
+				}
+			}
+			for i, e := range off.Edges {
+				if lp.Body[off.Block().Preds[i]] {
+					find(e, 0)
+				}
+			}
+		}
+		var hdr *ssa.Call
+		instrsOf(f, func(in ssa.Instruction) {
+			if call, ok := in.(*ssa.Call); ok && callIs(call, modPath+"/knx/util", "", "UnpackSome") && hdr == nil {
+				hdr = call
+			}
+		})
+		okHdr := false
+		if hdr != nil && lenCell != nil {
+			if items, opaque := ifaceArgs(hdr, true); !opaque && len(items) == 2 {
+				mi0, ok0 := items[0].(*ssa.MakeInterface)
+				mi1, ok1 := items[1].(*ssa.MakeInterface)
+				if ok0 && ok1 && stripPtrConv(mi0.X) == ssa.Value(lenCell) && stripPtrConv(mi1.X) != ssa.Value(lenCell) {
+					if pt, isP := mi1.X.Type().(*types.Pointer); isP && primWidth(pt.Elem()) == 1 {
+						okHdr = true
+					}
+				}
+			}
+		}
+		c.Decide(okHdr, rule, name+" reads (length, type) in that order", p.Pos(f.Pos()), "header read: announced length first, type second, one octet each", "the header of a block is not read as announced length then type: the loop advances by the type octet")
+	}
 	// T3: decode calls at the current offset
 	nDec := 0
 	// width of the header the round itself reads (util.UnpackSome(data[n:], &length, &type) inside the loop)
